@@ -1,3 +1,4 @@
+import XdsVerif.Model.Flow
 import XdsVerif.Model.Conc
 import XdsVerif.Model.DecodeCE
 import XdsVerif.Model.Decode
